@@ -49,7 +49,7 @@ def strat_T(tier):
         'out': st.one_of(st.tuples(ax, ax).map(list), ax.map(lambda k: [k, k])),
         'Q': st.one_of(st.sampled_from([1.0, 2.0, 0.5, 1.37]), U.nice_float(0.4, 4).map(lambda v: round(v, 3))),
         'shift': _shift(), 'phys': _phys(), 'method': st.sampled_from(['mdft', 'czt']), 'fwd': st.booleans(),
-        'kind': U.field_kinds, 'seed': U.seeds, 'adtype': st.sampled_from(['complex128', 'complex128', 'float64']),
+        'kind': U.field_kinds, 'seed': U.seeds, 'adtype': st.sampled_from(['complex128', 'complex128', 'float64']), 'layout': U.layouts,
         'ab': st.tuples(U.nice_float(-2, 2), U.nice_float(-2, 2), U.nice_float(-2, 2), U.nice_float(-2, 2)).map(lambda t: [round(v, 3) for v in t]),
     })
 
@@ -68,6 +68,8 @@ def check_T(case, ctx):
         a = a.astype(complex)
     else:
         a = np.ascontiguousarray(a.real).astype(case.get('adtype', 'complex128'))     # real-dtype input: linearity must hold across dtypes too
+    a = U.relayout(a, case.get('layout', 'C'))
+    a_before = a.copy()
     b = U.field(case['seed'], shape, 'complex', 2)
     al = complex(case['ab'][0], case['ab'][1])
     be = complex(case['ab'][2], case['ab'][3])
@@ -107,6 +109,7 @@ def check_T(case, ctx):
                   'output changed when %s was zero-embedded in %s (same dx, out=%s, shift=%r)' % (shape, list(big), out, sh), atol=TOL * scale)
     # transposition
     Tt = T(np.ascontiguousarray(a.T), (out[1], out[0]), (sh[1], sh[0]))
+    U.check_equal(a, a_before, tag + ':input-modified', 'the transform modified its input array')
     U.check_close(Tt.T, Ta, 0, tag + ':transposition', 'T(f^T; swapped out/shift) != T(f)^T for %s->%s shift=%r' % (shape, out, sh), atol=TOL * scale)
 
 
